@@ -163,6 +163,17 @@ def run(tier):
                     break
     ck.cov['requests_checked_for_gateway_form'] = nreq
     upgrade_header_alone(ck)
+    # application send() calls racing the heartbeat threads: the threaded server with this
+    # package's threaded client on one pre-emptive hub, time.time() a switch point, a send()
+    # issued at the very moment the clock advances.  No call may raise (the repaired defect F28
+    # raised TypeError out of send() here) and none may stay blocked.
+    from . import c10
+    itr, imeta = c10.run_idle_preempt(ck, seed + 13, 300 if th else 60, end=False)
+    ck.add_conformance('application send() calls issued while ping threads, PONGs and the service '
+                       'task are in flight (threaded server + threaded client on one pre-emptive hub, '
+                       'time.time() a switch point, long pre-emptions inside the heartbeat checker): '
+                       'no application call raises', len(itr),
+                       sum(1 for m_ in imeta if not m_['api_exceptions']))
     ck.cov['rule'] = ('case = one environment script (session histories interleaved with requests '
                       'that must be refused, malformed bodies, API calls) on one implementation; at '
                       'the end the clock runs I+3T+2 past the last input and nothing may be blocked')
@@ -265,4 +276,9 @@ def gateway_violation(impl, r):
 
 
 def replay(path):
+    import json
+    with open(path) as f:
+        if json.load(f).get('kind') == 'e2e':
+            from . import c10
+            return c10.replay(path, 'C15')
     return core.replay_server_trace('C15', path)
